@@ -71,8 +71,14 @@ func sleepTicking(d time.Duration) {
 // receive (an unbuffered output, so the handler has to wait for it).  No timing of
 // either side may change what is delivered.
 func runTimed(input []byte, pauseAt map[int]time.Duration, consStall time.Duration) []handler.Message {
+	return runTimedX(input, pauseAt, consStall, -1, 0, 0)
+}
+
+// runTimedX: in addition the consumer is held up ONCE, for onceStall, before it
+// takes delivery number onceAt (0 = the first); outCap is the output's capacity.
+func runTimedX(input []byte, pauseAt map[int]time.Duration, consStall time.Duration, onceAt int, onceStall time.Duration, outCap int) []handler.Message {
 	in := make(chan byte)
-	out := make(chan handler.Message)
+	out := make(chan handler.Message, outCap)
 	h := handler.New(fixedStart, slog.LevelInfo)
 	go h.HandleMessages(in, out)
 	go func() {
@@ -91,8 +97,11 @@ func runTimed(input []byte, pauseAt map[int]time.Duration, consStall time.Durati
 	var msgs []handler.Message
 	done := make(chan struct{})
 	go func() {
-		for {
+		for n := 0; ; n++ {
 			sleepTicking(consStall)
+			if n == onceAt {
+				sleepTicking(onceStall)
+			}
 			m, ok := <-out
 			if !ok {
 				break
@@ -102,7 +111,7 @@ func runTimed(input []byte, pauseAt map[int]time.Duration, consStall time.Durati
 		}
 		close(done)
 	}()
-	waitOrHang(done, caseWatchdog+time.Duration(len(pauseAt)+40)*(consStall+time.Second), "stream handler with a stalling producer/consumer did not finish")
+	waitOrHang(done, caseWatchdog+onceStall+time.Duration(len(pauseAt)+40)*(consStall+time.Second), "stream handler with a stalling producer/consumer did not finish")
 	return msgs
 }
 
@@ -113,6 +122,15 @@ func timedStalls(c *child.Ctx) []time.Duration {
 		return []time.Duration{120 * time.Millisecond, 300 * time.Millisecond, 600 * time.Millisecond, 1200 * time.Millisecond, 2500 * time.Millisecond, 5500 * time.Millisecond, 10500 * time.Millisecond}
 	}
 	return []time.Duration{300 * time.Millisecond, 1200 * time.Millisecond}
+}
+
+// onceStalls are the lengths of a single long hold-up (one write, one consumer):
+// longer than the timers a "watchdog" would plausibly use.
+func onceStalls(c *child.Ctx) []time.Duration {
+	if c.Thorough() {
+		return []time.Duration{6500 * time.Millisecond, 12500 * time.Millisecond, 31 * time.Second, 65 * time.Second}
+	}
+	return []time.Duration{6500 * time.Millisecond}
 }
 
 // execTimed runs a by-construction stream with a stalling consumer and with a
@@ -152,11 +170,26 @@ func execTimedCase(c *child.Ctx, k streamCase, cj []byte, sig string) {
 	if k.ConsumerStalls {
 		cons = stall
 	}
-	msgs := runTimed(unhex(k.Input), pauses, cons)
+	onceAt := -1
+	if k.OnceStallMs > 0 {
+		onceAt = k.OnceAt
+	}
+	msgs := runTimedX(unhex(k.Input), pauses, cons, onceAt, time.Duration(k.OnceStallMs)*time.Millisecond, k.OutCap)
 	if why := compareSeq(msgs, k.Expect); why != "" {
 		c.Violate(sig, k.Note+": "+why, cj)
 	}
 	c.Count("stalled_runs", 1)
+}
+
+// execHeldUpOnce: the consumer takes nothing for seconds, once, while the handler has
+// a message for it (unbuffered output, or a buffered one that is full).
+func execHeldUpOnce(c *child.Ctx, s gen.Stream, exp []gen.Expected, stall time.Duration, onceAt, outCap int, sig string) {
+	k := streamCase{Input: hexs(s.Bytes()), Expect: toExp(exp), StallMs: 1, OnceStallMs: stall.Milliseconds(), OnceAt: onceAt, OutCap: outCap,
+		Note: fmt.Sprintf("consumer held up once for %v before it takes delivery %d (output capacity %d)", stall, onceAt, outCap)}
+	cj := c.BeginV(k)
+	execTimedCase(c, k, cj, sig)
+	c.Count("held_up_once_runs", 1)
+	c.Eval(ref.Hash64(s.Bytes(), []byte(k.Note)), true)
 }
 
 type streamCase struct {
@@ -174,6 +207,11 @@ type streamCase struct {
 	StallMs        int64 `json:"stall_ms,omitempty"`
 	PauseAt        []int `json:"producer_pauses_at,omitempty"`
 	ConsumerStalls bool  `json:"consumer_stalls,omitempty"`
+	// the consumer is held up once, for OnceStallMs, before it takes delivery OnceAt
+	OnceStallMs int64 `json:"consumer_held_up_once_ms,omitempty"`
+	OnceAt      int   `json:"before_delivery,omitempty"`
+	// a second stream processed by the same handler afterwards
+	Second string `json:"second_stream_same_handler,omitempty"`
 	// direct call (C01)
 	Direct bool `json:"direct,omitempty"`
 	// bytes the same handler processed as a stream before the direct call
@@ -663,6 +701,10 @@ func monC03(c *child.Ctx, replay json.RawMessage) {
 			st = append(st, gen.Seg{Kind: "trunc", Type: -1, Bytes: gen.RandFrame(r).Bytes[:5]})
 		}
 		execTimed(c, st, st.ExpectedClean(), stalls[c.Batch/2], "sequence-mismatch")
+	}
+	if ob := c.NBatch - 1 - c.Batch; ob < len(onceStalls(c)) {
+		st := gen.Stream{gen.RandFrame(r), gen.Junk(r), gen.RandFrame(r), gen.RandFrame(r), gen.RandFrame(r), gen.Junk(r)}
+		execHeldUpOnce(c, st, st.ExpectedClean(), onceStalls(c)[ob], r.Intn(3), []int{0, 1, 2}[r.Intn(3)], "sequence-mismatch")
 	}
 	// long sessions: hundreds of junk-then-frame transitions in one stream
 	nLong := c.Pick(2, 6)
@@ -1199,15 +1241,40 @@ func execC02Timed(c *child.Ctx, k streamCase, cj []byte) {
 		cons = stall
 	}
 	input := unhex(k.Input)
-	msgs := runTimed(input, pauses, cons)
+	onceAt := -1
+	if k.OnceStallMs > 0 {
+		onceAt = k.OnceAt
+	}
+	msgs := runTimedX(input, pauses, cons, onceAt, time.Duration(k.OnceStallMs)*time.Millisecond, k.OutCap)
 	var cat []byte
 	for _, m := range msgs {
 		cat = append(cat, m.RawData...)
 	}
 	if !bytes.Equal(cat, input) {
-		c.Violate("not-lossless", fmt.Sprintf("with stalls of %v (consumer: %v, producer pauses at %v) the concatenated raw bytes (%d) differ from the input (%d): %s; delivered:%s", stall, k.ConsumerStalls, k.PauseAt, len(cat), len(input), firstDiff(cat, input), describeMsgs(msgs, 10)), cj)
+		c.Violate("not-lossless", fmt.Sprintf("with stalls of %v (consumer: %v, producer pauses at %v; consumer held up once for %d ms before delivery %d) the concatenated raw bytes (%d) differ from the input (%d): %s; delivered:%s", stall, k.ConsumerStalls, k.PauseAt, k.OnceStallMs, k.OnceAt, len(cat), len(input), firstDiff(cat, input), describeMsgs(msgs, 10)), cj)
 	}
 	c.Count("stalled_runs", 1)
+}
+
+// execC02Second: one handler, two streams one after the other (a reconnecting
+// source): each is segmented losslessly and each output is closed.
+func execC02Second(c *child.Ctx, k streamCase, cj []byte) {
+	h := handler.New(fixedStart, slog.LevelInfo)
+	for si, in := range [][]byte{unhex(k.Input), unhex(k.Second)} {
+		msgs := streamThrough(h, in)
+		var cat []byte
+		for i, m := range msgs {
+			if len(m.RawData) == 0 {
+				c.Violate("empty-message", fmt.Sprintf("stream %d on the same handler: delivery %d carries no raw bytes", si+1, i), cj)
+			}
+			cat = append(cat, m.RawData...)
+		}
+		if !bytes.Equal(cat, in) {
+			c.Violate("not-lossless", fmt.Sprintf("stream %d processed by the same handler: concatenated raw bytes (%d) differ from the input (%d): %s; delivered:%s", si+1, len(cat), len(in), firstDiff(cat, in), describeMsgs(msgs, 10)), cj)
+			return
+		}
+	}
+	c.Count("second_streams_on_one_handler", 1)
 }
 
 func monC02(c *child.Ctx, replay json.RawMessage) {
@@ -1215,6 +1282,10 @@ func monC02(c *child.Ctx, replay json.RawMessage) {
 		var k streamCase
 		json.Unmarshal(replay, &k)
 		c.Begin(replay)
+		if k.Second != "" {
+			execC02Second(c, k, replay)
+			return
+		}
 		if k.StallMs > 0 {
 			execC02Timed(c, k, replay)
 			return
@@ -1323,7 +1394,7 @@ func monC02(c *child.Ctx, replay json.RawMessage) {
 	// a consumer that stays away before every receive, and an input that falls silent
 	// inside and between its segments: still lossless
 	stalls := timedStalls(c)
-	if sb := c.NBatch - 1 - c.Batch; sb < len(stalls) {
+	if sb := c.Batch - 2; sb >= 0 && sb < len(stalls) {
 		stalls = []time.Duration{stalls[sb], stalls[sb]}
 		var st gen.Stream
 		for {
@@ -1349,6 +1420,52 @@ func monC02(c *child.Ctx, replay json.RawMessage) {
 			execC02Timed(c, k, cj)
 			c.Eval(ref.Hash64(st.Bytes(), []byte{byte(mode)}, []byte(fmt.Sprint(k.StallMs))), true)
 		}
+	}
+	if ob := c.Batch / 2; c.Batch%2 == 1 && ob < len(onceStalls(c)) {
+		var st gen.Stream
+		for {
+			st = gen.HostileStream(r, false)
+			if nm := len(runSequential(fixedStart, slog.LevelInfo, st.Bytes())); nm >= 3 && nm <= 12 && len(st.Bytes()) < 3000 {
+				break
+			}
+		}
+		k := streamCase{Input: hexs(st.Bytes()), StallMs: 1, OnceStallMs: onceStalls(c)[ob].Milliseconds(), OnceAt: r.Intn(3), OutCap: []int{0, 1, 8}[r.Intn(3)]}
+		cj := c.BeginV(k)
+		execC02Timed(c, k, cj)
+		c.Count("held_up_once_runs", 1)
+		c.Eval(ref.Hash64(cj), true)
+	}
+	// a handler that is given a second stream after the first has ended - complete, or
+	// inside a leader, a payload, a CRC, in other data, or on a lone start byte
+	nsec := c.Share(c.Pick(1600, 40000))
+	for i := 0; i < nsec; i++ {
+		first := gen.HostileStream(r, false).Bytes()
+		f := gen.RandFrame(r)
+		switch i % 6 {
+		case 0:
+			first = append(first, f.Bytes...)
+		case 1:
+			first = append(first, f.Bytes[:r.Range(1, 3)]...)
+		case 2:
+			first = append(first, f.Bytes[:r.Range(3, len(f.Bytes)-3)]...)
+		case 3:
+			first = append(first, f.Bytes[:len(f.Bytes)-r.Range(1, 3)]...)
+		case 4:
+			first = append(first, gen.Junk(r).Bytes...)
+		default:
+			first = append(first, 0xD3)
+		}
+		second := gen.HostileStream(r, false).Bytes()
+		if i%3 == 0 {
+			second = append(append([]byte(nil), gen.RandFrame(r).Bytes...), second...)
+		}
+		if len(first) > 4000 || len(second) > 4000 || len(second) == 0 {
+			continue
+		}
+		k := streamCase{Input: hexs(first), Second: hexs(second)}
+		cj := c.BeginV(k)
+		execC02Second(c, k, cj)
+		c.Eval(ref.Hash64(cj), true)
 	}
 	c.Count("distinct_interleavings_observed", int64(len(traces)))
 	c.Count("max_distinct_adjacent_site_pairs", int64(len(pairs)))
